@@ -98,6 +98,14 @@ pub fn gen(tier: &str, seed: u64) -> Gen {
                         "7" => Some("[string length abcdefg]"),
                         _ => None,
                     };
+                    // ... or as a literal that is not the canonical decimal spelling (hex, a sign, padding)
+                    let respelt: Option<String> = if rng.chance(1, 2) { None } else {
+                        match code.parse::<i64>() {
+                            Ok(nv) => Some(match rng.below(4) { 0 => format!("0x{:x}", nv), 1 => format!("+{}", nv), 2 => format!("{{ {}}}", nv), _ => format!("\"{} \"", nv) }),
+                            Err(_) => None,
+                        }
+                    };
+                    let spelt: Option<&str> = match &respelt { Some(s) => Some(s.as_str()), None => spelt };
                     if let Some(sp) = spelt {
                         let parts = c.as_list().to_vec();
                         let text = parts[2].as_str().replace(&format!("return -code {} -level", code), &format!("return -code {} -level", sp));
@@ -109,7 +117,7 @@ pub fn gen(tier: &str, seed: u64) -> Gen {
             }
         }
     }
-    (cases, vec![(format!("{} raising commands (12 codes - the five standard ones by name and by number, 5 and 7 - x levels 0-3, plain return/break/continue/error) x every stack of frames of depth<={} over proc/while/for/foreach/catch/if/expr (a command substitution inside an expression), a quarter of them after caught failures in the same evaluation, a third of the numeric codes computed by catch / expr instead of written as literals", raises.len(), maxdepth), n, thorough)])
+    (cases, vec![(format!("{} raising commands (12 codes - the five standard ones by name and by number, 5 and 7 - x levels 0-3, plain return/break/continue/error) x every stack of frames of depth<={} over proc/while/for/foreach/catch/if/expr (a command substitution inside an expression), a quarter of them after caught failures in the same evaluation, a third of the numeric codes computed by catch / expr or written in a non-canonical spelling (hex, sign, padding) instead of as plain decimal literals", raises.len(), maxdepth), n, thorough)])
 }
 
 pub fn run(case: &Term) -> Term {
